@@ -122,4 +122,125 @@ example : (1 / 2 : ℝ) * (1 / 3) ≤ C 5 (1 / 2) (1 / 3) :=
 example : C (-5) (1 / 2) (1 / 3) ≤ (1 / 2 : ℝ) * (1 / 3) :=
   C_le_mul (by norm_num) (by norm_num) (by norm_num) (by norm_num) (by norm_num)
 
+/-! ### ordering in `θ` -/
+
+
+/-- Chord inequality for the convex `x ↦ (a + b x^q)^(1/q)` (two-point Minkowski). -/
+theorem chord_Lq {q a b w t : ℝ} (hq : 1 ≤ q) (ha : 0 ≤ a) (hb : 0 ≤ b) (hab : a + b = 1)
+    (hw : 0 ≤ w) (ht0 : 0 ≤ t) (ht1 : t ≤ 1) :
+    (a + b * ((1 - t) + t * w) ^ q) ^ (1 / q) ≤ (1 - t) + t * (a + b * w ^ q) ^ (1 / q) := by
+  have hq0 : 0 < q := by linarith
+  have hq' : q ≠ 0 := hq0.ne'
+  have hs : 0 ≤ 1 - t := by linarith
+  have hα : 0 ≤ a ^ (1 / q) := Real.rpow_nonneg ha _
+  have hβ : 0 ≤ b ^ (1 / q) := Real.rpow_nonneg hb _
+  have eα : (a ^ (1 / q)) ^ q = a := by
+    rw [← Real.rpow_mul ha, one_div, inv_mul_cancel₀ hq', Real.rpow_one]
+  have eβ : (b ^ (1 / q)) ^ q = b := by
+    rw [← Real.rpow_mul hb, one_div, inv_mul_cancel₀ hq', Real.rpow_one]
+  have key := Real.Lp_add_le_of_nonneg (s := (Finset.univ : Finset (Fin 2)))
+    (f := ![(1 - t) * a ^ (1 / q), (1 - t) * b ^ (1 / q)])
+    (g := ![t * a ^ (1 / q), t * (b ^ (1 / q) * w)]) hq
+    (by intro i _; fin_cases i <;> simp <;> positivity)
+    (by intro i _; fin_cases i <;> simp <;> positivity)
+  simp only [Fin.sum_univ_two, Matrix.cons_val_zero, Matrix.cons_val_one] at key
+  have e1 : (1 - t) * a ^ (1 / q) + t * a ^ (1 / q) = a ^ (1 / q) := by ring
+  have e2 : (1 - t) * b ^ (1 / q) + t * (b ^ (1 / q) * w) = b ^ (1 / q) * ((1 - t) + t * w) := by
+    ring
+  have hx : 0 ≤ (1 - t) + t * w := by positivity
+  rw [e1, e2, eα, Real.mul_rpow hβ hx, eβ, Real.mul_rpow hs hα, Real.mul_rpow hs hβ, eα, eβ,
+    Real.mul_rpow ht0 hα, Real.mul_rpow ht0 (mul_nonneg hβ hw), Real.mul_rpow hβ hw, eα, eβ] at key
+  have e3 : (1 - t) ^ q * a + (1 - t) ^ q * b = (1 - t) ^ q := by rw [← mul_add, hab, mul_one]
+  have e4 : t ^ q * a + t ^ q * (b * w ^ q) = t ^ q * (a + b * w ^ q) := by ring
+  have hS : 0 ≤ a + b * w ^ q := by positivity
+  rw [e3, e4, Real.mul_rpow (Real.rpow_nonneg ht0 _) hS, ← Real.rpow_mul hs, ← Real.rpow_mul ht0,
+    mul_one_div, div_self hq', Real.rpow_one, Real.rpow_one] at key
+  exact key
+
+/-- Key inequality behind the ordering in `θ` (either sign of θ): scaling the parameter by `q ≥ 1`
+makes the log argument at most its `q`-th power, `D(qθ,u,v) ≤ D(θ,u,v)^q`, i.e.
+`e^{-qθ·C_{qθ}(u,v)} ≤ e^{-qθ·C_θ(u,v)}`.  With `x = e^{-θu}` between `1` and `w = e^{-θ}` this is the
+chord inequality `chord_Lq` for `x ↦ ((1-p') + p'·x^q)^{1/q}`, `p' = r (qθ) v`. -/
+theorem D_scale_le {θ q u v : ℝ} (hθ : θ ≠ 0) (hq : 1 ≤ q) (hu : 0 ≤ u) (hu1 : u ≤ 1)
+    (hv : 0 ≤ v) (hv1 : v ≤ 1) :
+    1 + g (q * θ) u * g (q * θ) v / g (q * θ) 1 ≤ (1 + g θ u * g θ v / g θ 1) ^ q := by
+  have hq0 : 0 < q := by linarith
+  have hqθ : q * θ ≠ 0 := mul_ne_zero hq0.ne' hθ
+  have hb0 := r_nonneg hqθ hv
+  have hb1 := r_le_one hqθ hv1
+  have key := chord_Lq hq (sub_nonneg.mpr hb1) hb0 (by ring) (Real.exp_pos (-θ * 1)).le
+    (r_nonneg hθ hu) (r_le_one hθ hu1)
+  have e1 : (1 - r θ u) + r θ u * Real.exp (-θ * 1) = Real.exp (-θ * u) := by
+    rw [exp_eq_combo hθ u]; ring
+  have e2 : Real.exp (-θ * u) ^ q = Real.exp (-(q * θ) * u) := by
+    rw [← Real.exp_mul]; congr 1; ring
+  have e3 : Real.exp (-θ * 1) ^ q = Real.exp (-(q * θ) * 1) := by
+    rw [← Real.exp_mul]; congr 1; ring
+  have e4 : (1 - r (q * θ) v) + r (q * θ) v * Real.exp (-(q * θ) * 1)
+      = Real.exp (-(q * θ) * v) := by
+    rw [exp_eq_combo hqθ v]; ring
+  have e5 : Real.exp (-(q * θ) * v) ^ (1 / q) = Real.exp (-θ * v) := by
+    rw [← Real.exp_mul]; congr 1; field_simp
+  rw [e1, e2, e3, e4, e5, ← D_eq, ← D_eq'] at key
+  have hD := D_pos hqθ u hv hv1
+  calc 1 + g (q * θ) u * g (q * θ) v / g (q * θ) 1
+      = ((1 + g (q * θ) u * g (q * θ) v / g (q * θ) 1) ^ (1 / q)) ^ q := by
+        rw [← Real.rpow_mul hD.le, one_div, inv_mul_cancel₀ hq0.ne', Real.rpow_one]
+    _ ≤ (1 + g θ u * g θ v / g θ 1) ^ q :=
+        Real.rpow_le_rpow (Real.rpow_nonneg hD.le _) key hq0.le
+
+example : 1 + g (2 * (-3)) (1 / 2) * g (2 * (-3)) (1 / 3) / g (2 * (-3)) 1
+    ≤ (1 + g (-3) (1 / 2) * g (-3) (1 / 3) / g (-3) 1) ^ (2 : ℝ) :=
+  D_scale_le (by norm_num) (by norm_num) (by norm_num) (by norm_num) (by norm_num) (by norm_num)
+
+/-- Ordering in θ, both parameters positive. -/
+theorem C_le_C_of_pos {θ₁ θ₂ u v : ℝ} (h1 : 0 < θ₁) (h12 : θ₁ ≤ θ₂) (hu : 0 ≤ u) (hu1 : u ≤ 1)
+    (hv : 0 ≤ v) (hv1 : v ≤ 1) : C θ₁ u v ≤ C θ₂ u v := by
+  have h2 : 0 < θ₂ := h1.trans_le h12
+  have hq : 1 ≤ θ₂ / θ₁ := (one_le_div h1).mpr h12
+  have e : θ₂ / θ₁ * θ₁ = θ₂ := div_mul_cancel₀ _ h1.ne'
+  have key := D_scale_le h1.ne' hq hu hu1 hv hv1
+  rw [e, ← exp_neg_theta_C h2.ne' (D_pos h2.ne' u hv hv1),
+    ← exp_neg_theta_C h1.ne' (D_pos h1.ne' u hv hv1), ← Real.exp_mul] at key
+  have := Real.exp_le_exp.mp key
+  have e' : -θ₁ * C θ₁ u v * (θ₂ / θ₁) = -θ₂ * C θ₁ u v := by field_simp
+  rw [e'] at this
+  nlinarith
+
+/-- Ordering in θ, both parameters negative. -/
+theorem C_le_C_of_neg {θ₁ θ₂ u v : ℝ} (h12 : θ₁ ≤ θ₂) (h2 : θ₂ < 0) (hu : 0 ≤ u) (hu1 : u ≤ 1)
+    (hv : 0 ≤ v) (hv1 : v ≤ 1) : C θ₁ u v ≤ C θ₂ u v := by
+  have h1 : θ₁ < 0 := h12.trans_lt h2
+  have hq : 1 ≤ θ₁ / θ₂ := (one_le_div_of_neg h2).mpr h12
+  have e : θ₁ / θ₂ * θ₂ = θ₁ := div_mul_cancel₀ _ h2.ne
+  have key := D_scale_le h2.ne hq hu hu1 hv hv1
+  rw [e, ← exp_neg_theta_C h2.ne (D_pos h2.ne u hv hv1),
+    ← exp_neg_theta_C h1.ne (D_pos h1.ne u hv hv1), ← Real.exp_mul] at key
+  have := Real.exp_le_exp.mp key
+  have hne := h2.ne
+  have e' : -θ₂ * C θ₂ u v * (θ₁ / θ₂) = -θ₁ * C θ₂ u v := by field_simp
+  rw [e'] at this
+  nlinarith
+
+/-- **The Frank family is positively ordered**: for nonzero `θ₁ ≤ θ₂` of arbitrary signs,
+`C θ₁ ≤ C θ₂` pointwise on the closed unit square.  (Mixed signs go through the independence copula
+`u·v`, which is the excluded limit `θ → 0`.) -/
+theorem C_le_C_of_theta_le {θ₁ θ₂ u v : ℝ} (h1 : θ₁ ≠ 0) (h2 : θ₂ ≠ 0) (h12 : θ₁ ≤ θ₂)
+    (hu : 0 ≤ u) (hu1 : u ≤ 1) (hv : 0 ≤ v) (hv1 : v ≤ 1) : C θ₁ u v ≤ C θ₂ u v := by
+  rcases lt_or_gt_of_ne h1 with n1 | p1
+  · rcases lt_or_gt_of_ne h2 with n2 | p2
+    · exact C_le_C_of_neg h12 n2 hu hu1 hv hv1
+    · exact (C_le_mul n1 hu hu1 hv hv1).trans (mul_le_C p2 hu hu1 hv hv1)
+  · exact C_le_C_of_pos p1 h12 hu hu1 hv hv1
+
+example : C (-3) (1 / 2) (1 / 3) ≤ C (-1) (1 / 2) (1 / 3)
+    ∧ C (-1) (1 / 2) (1 / 3) ≤ C 2 (1 / 2) (1 / 3)
+    ∧ C 2 (1 / 2) (1 / 3) ≤ C 7 (1 / 2) (1 / 3) :=
+  ⟨C_le_C_of_theta_le (by norm_num) (by norm_num) (by norm_num) (by norm_num) (by norm_num)
+      (by norm_num) (by norm_num),
+    C_le_C_of_theta_le (by norm_num) (by norm_num) (by norm_num) (by norm_num) (by norm_num)
+      (by norm_num) (by norm_num),
+    C_le_C_of_theta_le (by norm_num) (by norm_num) (by norm_num) (by norm_num) (by norm_num)
+      (by norm_num) (by norm_num)⟩
+
 end CopVerif.Frank
